@@ -11,6 +11,8 @@ import (
 	"crypto/ecdsa"
 	"crypto/elliptic"
 	"crypto/rand"
+	"crypto/rsa"
+	"crypto/sha256"
 	"crypto/x509"
 	"crypto/x509/pkix"
 	"encoding/base64"
@@ -23,6 +25,7 @@ import (
 	"net"
 	"net/http"
 	"net/http/httptest"
+	"net/url"
 	"os"
 	"strings"
 	"sync/atomic"
@@ -41,7 +44,12 @@ import (
 func (k *SSHCase) runProv() (string, string, string) { return "", "", "" }
 func genProv(r *c.Rng) *Case                           { return genE2E(r) }
 func cornerProv() []*Case                              { return cornerE2E() }
-func cleanup()                                         { closeACME() }
+func cleanup() {
+	closeACME()
+	if env != nil && env.awsRoots != "" {
+		os.Remove(env.awsRoots)
+	}
+}
 
 // RenewCase is the end-to-end case (sign, then optionally renew / rekey what was issued).
 type RenewCase struct {
@@ -62,6 +70,7 @@ type RenewCase struct {
 	// dates the provisioner's certificate template sets (Kind 1 instants; Kind 0 = the default template)
 	TNB, TNA TD // X.509 template notBefore / notAfter
 	TVA, TVB TD // SSH template validAfter / validBefore
+	Hook     bool // the template takes those dates from the data an ENRICHING webhook returns
 }
 
 type envT struct {
@@ -70,10 +79,13 @@ type envT struct {
 	jwk                 *jose.JSONWebKey
 	sshUser, sshHost    crypto.Signer
 	csr                 *x509.CertificateRequest
+	csrAWS              *x509.CertificateRequest // common name = the instance's private IP, as AWS.AuthorizeSign demands
 	leafKey             *ecdsa.PrivateKey
 	sshPub2             ssh.PublicKey
 	rootPEM             []byte
 	serial              int64
+	awsKey              *rsa.PrivateKey
+	awsRoots            string // path of the PEM file the AWS provisioner verifies identity documents with (iidRoots)
 	k8sKey              *ecdsa.PrivateKey
 	k8sPEM              []byte
 	oidcKey             *jose.JSONWebKey
@@ -150,7 +162,24 @@ func getEnv() *envT {
 		panic(err)
 	}
 	e.csr, _ = x509.ParseCertificateRequest(der)
+	if der2, err := x509.CreateCertificateRequest(rand.Reader, &x509.CertificateRequest{
+		Subject: pkix.Name{CommonName: "10.0.0.5"}, IPAddresses: []net.IP{net.ParseIP("10.0.0.5")}}, e.leafKey); err == nil {
+		e.csrAWS, _ = x509.ParseCertificateRequest(der2)
+	}
 	e.sshPub2, _ = ssh.NewPublicKey(mustKey().Public())
+	// AWS instance identity documents are signed with this key; its certificate is the provisioner's iidRoots file
+	if ak, err := rsa.GenerateKey(rand.Reader, 2048); err == nil {
+		e.awsKey = ak
+		tpl := &x509.Certificate{SerialNumber: big.NewInt(77), Subject: pkix.Name{CommonName: "verif aws iid"},
+			NotBefore: time.Now().Add(-time.Hour), NotAfter: time.Now().AddDate(10, 0, 0)}
+		if der, err := x509.CreateCertificate(rand.Reader, tpl, tpl, &ak.PublicKey, ak); err == nil {
+			if f, err := os.CreateTemp("", "verif-c06-aws-*.pem"); err == nil {
+				pem.Encode(f, &pem.Block{Type: "CERTIFICATE", Bytes: der})
+				f.Close()
+				e.awsRoots = f.Name()
+			}
+		}
+	}
 	// Kubernetes service-account signing key; an OIDC issuer (discovery document + JWKS) on a local listener
 	e.k8sKey = mustKey()
 	if der, err := x509.MarshalPKIXPublicKey(e.k8sKey.Public()); err == nil {
@@ -170,6 +199,21 @@ func getEnv() *envT {
 	})
 	mux.HandleFunc("/jwks", func(w http.ResponseWriter, _ *http.Request) {
 		json.NewEncoder(w).Encode(jose.JSONWebKeySet{Keys: []jose.JSONWebKey{ok.Public()}})
+	})
+	// an enriching webhook: answers with the dates given in the query, for templates that read .Webhooks.w.*
+	mux.HandleFunc("/hook", func(w http.ResponseWriter, r *http.Request) {
+		data := map[string]string{}
+		for k, v := range r.URL.Query() {
+			data[k] = v[0]
+		}
+		json.NewEncoder(w).Encode(map[string]any{"allow": true, "data": data})
+	})
+	// key sources of the GCP and Azure provisioners (pointed here through C01's verif hooks)
+	mux.HandleFunc("/gcp/certs", func(w http.ResponseWriter, _ *http.Request) {
+		json.NewEncoder(w).Encode(jose.JSONWebKeySet{Keys: []jose.JSONWebKey{ok.Public()}})
+	})
+	mux.HandleFunc("/azure/tenant-1/.well-known/openid-configuration", func(w http.ResponseWriter, _ *http.Request) {
+		json.NewEncoder(w).Encode(map[string]string{"issuer": "https://sts.windows.net/tenant-1/", "jwks_uri": e.oidcSrv.URL + "/jwks"})
 	})
 	// a Nebula CA (P-256) valid well around every credential the cases generate
 	e.nebKey = mustKey()
@@ -213,44 +257,47 @@ func tplTime(d TD, base time.Time) (time.Time, bool) {
 	return t, true
 }
 
-// templates: provisioner options whose X.509 / SSH templates are the default ones plus validity dates.
+// templates: provisioner options whose X.509 / SSH templates are the default ones plus validity dates, written
+// into the template or (Hook) taken from the data an enriching webhook returns.
 func (k *RenewCase) templates(base time.Time) *provisioner.Options {
 	var o provisioner.Options
+	q := url.Values{}
+	field := func(name, key string, t time.Time, has bool) string {
+		if !has {
+			return ""
+		}
+		v := t.Format(time.RFC3339Nano)
+		if k.Hook {
+			q.Set(key, v)
+			return fmt.Sprintf(",\n\t%q: {{ toJson .Webhooks.w.%s }}", name, key)
+		}
+		return fmt.Sprintf(",\n\t%q: %q", name, v)
+	}
 	nb, hasNB := tplTime(k.TNB, base)
 	na, hasNA := tplTime(k.TNA, base)
 	if hasNB || hasNA {
-		extra := ""
-		if hasNB {
-			extra += fmt.Sprintf(",\n\t\"notBefore\": %q", nb.Format(time.RFC3339Nano))
-		}
-		if hasNA {
-			extra += fmt.Sprintf(",\n\t\"notAfter\": %q", na.Format(time.RFC3339Nano))
-		}
 		o.X509 = &provisioner.X509Options{Template: `{
 	"subject": {{ toJson .Subject }},
 	"sans": {{ toJson .SANs }},
 	"keyUsage": ["digitalSignature"],
-	"extKeyUsage": ["serverAuth", "clientAuth"]` + extra + "\n}"}
+	"extKeyUsage": ["serverAuth", "clientAuth"]` + field("notBefore", "nb", nb, hasNB) + field("notAfter", "na", na, hasNA) + "\n}"}
 	}
 	va, hasVA := tplTime(k.TVA, base)
 	vb, hasVB := tplTime(k.TVB, base)
 	if hasVA || hasVB {
-		extra := ""
-		if hasVA {
-			extra += fmt.Sprintf(",\n\t\"validAfter\": %q", va.Format(time.RFC3339Nano))
-		}
-		if hasVB {
-			extra += fmt.Sprintf(",\n\t\"validBefore\": %q", vb.Format(time.RFC3339Nano))
-		}
 		o.SSH = &provisioner.SSHOptions{Template: `{
 	"type": {{ toJson .Type }},
 	"keyId": {{ toJson .KeyID }},
 	"principals": {{ toJson .Principals }},
 	"extensions": {{ toJson .Extensions }},
-	"criticalOptions": {{ toJson .CriticalOptions }}` + extra + "\n}"}
+	"criticalOptions": {{ toJson .CriticalOptions }}` + field("validAfter", "va", va, hasVA) + field("validBefore", "vb", vb, hasVB) + "\n}"}
 	}
 	if o.X509 == nil && o.SSH == nil {
 		return nil
+	}
+	if k.Hook {
+		o.Webhooks = []*provisioner.Webhook{{ID: "wh1", Name: "w", URL: getEnv().oidcSrv.URL + "/hook?" + q.Encode(), Kind: "ENRICHING",
+			CertType: "ALL", Secret: base64.StdEncoding.EncodeToString([]byte("0123456789abcdef0123456789abcdef")), DisableTLSClientAuth: true}}
 	}
 	return &o
 }
@@ -261,11 +308,17 @@ func (k *RenewCase) authority(base time.Time) (*authority.Authority, error) {
 	opts := k.templates(base)
 	jp := &provisioner.JWK{Name: "jwk", Type: "JWK", Key: &pub, Claims: k.provClaims(), Options: opts}
 	xp := &provisioner.X5C{Name: "x5c", Type: "X5C", Roots: e.rootPEM, Claims: k.provClaims(), Options: opts}
+	gp := &provisioner.GCP{Name: "gcp", Type: "GCP", ServiceAccounts: []string{"sa-1@proj-1.iam.gserviceaccount.com"}, ProjectIDs: []string{"proj-1"},
+		InstanceAge: provisioner.Duration{Duration: time.Hour}, Claims: k.provClaims(), Options: opts}
+	provisioner.VerifSetGCPCertsURL(gp, e.oidcSrv.URL+"/gcp/certs")
+	zp := &provisioner.Azure{Name: "azure", Type: "Azure", TenantID: "tenant-1", Claims: k.provClaims(), Options: opts}
+	provisioner.VerifSetAzureDiscoveryURL(zp, e.oidcSrv.URL+"/azure/tenant-1/.well-known/openid-configuration")
 	cfg := &config.Config{
 		Address:  ":443",
 		DNSNames: []string{"ca.verif.test"},
 		AuthorityConfig: &config.AuthConfig{
-			Provisioners: provisioner.List{jp, xp, &provisioner.Nebula{Name: "nebula", Type: "Nebula", Roots: e.nebPEM, Claims: k.provClaims(), Options: opts},
+			Provisioners: provisioner.List{gp, zp, &provisioner.AWS{Name: "aws", Type: "AWS", Accounts: []string{"123456789012"}, IIDRoots: e.awsRoots,
+				InstanceAge: provisioner.Duration{Duration: time.Hour}, Claims: k.provClaims(), Options: opts}, jp, xp, &provisioner.Nebula{Name: "nebula", Type: "Nebula", Roots: e.nebPEM, Claims: k.provClaims(), Options: opts},
 				&provisioner.SSHPOP{Name: "sshpop", Type: "SSHPOP", Claims: k.provClaims()},
 				&provisioner.K8sSA{Name: "k8ssa", Type: "K8sSA", PubKeys: e.k8sPEM, Claims: k.provClaims(), Options: opts},
 				&provisioner.OIDC{Name: "oidc", Type: "OIDC", ClientID: "verif-client", ConfigurationEndpoint: e.oidcSrv.URL,
@@ -307,6 +360,43 @@ func (k *RenewCase) token(aud, sub string, sshOpts *provisioner.SignSSHOptions, 
 	var sig jose.Signer
 	var err error
 	switch k.Prov {
+	case "aws":
+		inst := fmt.Sprintf("i-%d%d", now.UnixNano(), n)
+		doc, _ := json.Marshal(map[string]any{"accountId": "123456789012", "instanceId": inst, "privateIp": "10.0.0.5", "region": "us-east-1",
+			"pendingTime": now.Add(-10 * time.Minute).UTC().Format(time.RFC3339), "imageId": "ami-1", "instanceType": "t2.micro", "version": "2017-09-30"})
+		h := sha256.Sum256(doc)
+		docSig, err := rsa.SignPKCS1v15(rand.Reader, e.awsKey, crypto.SHA256, h[:])
+		if err != nil {
+			return "", err
+		}
+		oc := map[string]any{"iss": "ec2.amazonaws.com", "aud": aud + "#aws/aws", "sub": "10.0.0.5", "sans": []string{},
+			"exp": now.Add(5 * time.Minute).Unix(), "iat": now.Unix(), "nbf": now.Unix() - 30, "jti": cl.ID,
+			"amazon": map[string]any{"document": doc, "signature": docSig}}
+		sig, err = jose.NewSigner(jose.SigningKey{Algorithm: jose.HS256, Key: docSig}, new(jose.SignerOptions).WithType("JWT"))
+		if err != nil {
+			return "", err
+		}
+		return jose.Signed(sig).Claims(oc).CompactSerialize()
+	case "gcp", "azure":
+		inst := fmt.Sprintf("%d%d", now.UnixNano(), n)
+		var oc map[string]any
+		if k.Prov == "gcp" {
+			oc = map[string]any{"iss": "https://accounts.google.com", "aud": aud + "#gcp/gcp", "sub": "1234567", "azp": "azp-1",
+				"email": "sa-1@proj-1.iam.gserviceaccount.com", "email_verified": true,
+				"exp": now.Add(5 * time.Minute).Unix(), "iat": now.Unix(),
+				"google": map[string]any{"compute_engine": map[string]any{"instance_id": "42" + inst, "instance_name": "vm1",
+					"instance_creation_timestamp": now.Unix() - 600, "project_id": "proj-1", "project_number": 1, "zone": "us-central1-a"}}}
+		} else {
+			oc = map[string]any{"iss": "https://sts.windows.net/tenant-1/", "aud": "https://management.azure.com/", "sub": "azure-subject",
+				"appid": "app-1", "oid": "obj-1", "tid": "tenant-1", "ver": "1.0", "exp": now.Add(5 * time.Minute).Unix(), "iat": now.Unix(), "nbf": now.Unix() - 30,
+				"xms_mirid": "/subscriptions/sub-1/resourceGroups/rg-1/providers/Microsoft.Compute/virtualMachines/vm" + inst}
+		}
+		sig, err = jose.NewSigner(jose.SigningKey{Algorithm: jose.ES256, Key: e.oidcKey.Key},
+			new(jose.SignerOptions).WithType("JWT").WithHeader("kid", e.oidcKey.KeyID))
+		if err != nil {
+			return "", err
+		}
+		return jose.Signed(sig).Claims(oc).CompactSerialize()
 	case "k8ssa":
 		cl.Claims = jose.Claims{Issuer: "kubernetes/serviceaccount", Subject: "system:serviceaccount:verif:" + sub}
 		cl.SANs, cl.Step = nil, nil
@@ -435,11 +525,16 @@ func (k *RenewCase) runAll() (out [][2]string) {
 			if err != nil {
 				return append(out, [2]string{"skip reason=authorize", "skip"})
 			}
-			certs, err = a.SignWithContext(sctx, e.csr, provisioner.SignOptions{NotBefore: snb, NotAfter: sna}, so...)
+			csr := e.csr
+			if k.Prov == "aws" {
+				csr = e.csrAWS
+			}
+			certs, err = a.SignWithContext(sctx, csr, provisioner.SignOptions{NotBefore: snb, NotAfter: sna}, so...)
 			if after := time.Now(); after.Unix() != vnow.Unix() && try < 5 {
 				continue
 			}
 			if err != nil {
+				dbg("Sign "+k.Prov, err)
 				impl = "rej"
 			} else {
 				impl = fmt.Sprintf("ok cert=%d,%d", certs[0].NotBefore.Unix()+unixToInternal, certs[0].NotAfter.Unix()+unixToInternal)
@@ -472,7 +567,7 @@ func (k *RenewCase) runAll() (out [][2]string) {
 			}
 		}
 	case "ssh":
-		if k.Prov == "k8ssa" || k.Prov == "oidc" {
+		if k.Prov == "k8ssa" || k.Prov == "oidc" || k.Prov == "gcp" || k.Prov == "azure" || k.Prov == "aws" {
 			k.KVA, k.KVB = TD{}, TD{} // their tokens carry no SSH options
 		}
 		uva, uvaS := k.UVA.build(base)
@@ -685,6 +780,9 @@ func genE2E(r *c.Rng) *Case {
 		if k.Kind == "x509" {
 			k.Prov = "scep"
 		}
+	case 8:
+		k.Prov = c.Pick(r, []string{"gcp", "azure", "aws"})
+		k.CType = 2 // cloud identity provisioners issue SSH host certificates
 	}
 	// claims that initialise (consistent), at authority and provisioner level
 	k.A = genClaimSet(r, false)
@@ -792,6 +890,7 @@ func genE2E(r *c.Rng) *Case {
 			if r.Chance(1, 2) { // let the template decide
 				k.SNB, k.SNA = TD{}, TD{}
 			}
+			k.Hook = r.Chance(1, 3)
 		} else {
 			if r.Chance(2, 3) {
 				k.TVA = tstart
@@ -805,9 +904,10 @@ func genE2E(r *c.Rng) *Case {
 			if r.Chance(1, 2) {
 				k.UVA, k.UVB, k.KVA, k.KVB = TD{}, TD{}, TD{}, TD{}
 			}
+			k.Hook = r.Chance(1, 3)
 		}
 	}
-	if k.Prov == "k8ssa" || k.Prov == "scep" {
+	if k.Prov == "k8ssa" || k.Prov == "scep" || k.Prov == "gcp" || k.Prov == "azure" || k.Prov == "aws" {
 		// its default templates copy the request (no subject / type in the template data): keep them
 		k.TNB, k.TNA, k.TVA, k.TVB = TD{}, TD{}, TD{}, TD{}
 	}
@@ -839,10 +939,19 @@ func cornerE2E() []*Case {
 		{Renew: &RenewCase{Kind: "ssh", Prov: "k8ssa", CType: 1, Backdate: min}},
 		{Renew: &RenewCase{Kind: "x509", Prov: "oidc", Backdate: min, Renew: true}},
 		{Renew: &RenewCase{Kind: "x509", Prov: "scep", Backdate: min}},
+		// cloud identity provisioners (key sources on the local listener through C01's hooks)
+		{Renew: &RenewCase{Kind: "x509", Prov: "gcp", Backdate: min, Renew: true}},
+		{Renew: &RenewCase{Kind: "ssh", Prov: "gcp", CType: 2, Backdate: min, Renew: true}},
+		{Renew: &RenewCase{Kind: "x509", Prov: "azure", Backdate: min, Renew: true}},
+		{Renew: &RenewCase{Kind: "x509", Prov: "aws", Backdate: min, Renew: true}},
+		{Renew: &RenewCase{Kind: "ssh", Prov: "aws", CType: 2, Backdate: min}},
+		{Renew: &RenewCase{Kind: "ssh", Prov: "azure", CType: 2, Backdate: min}},
 		{Renew: &RenewCase{Kind: "ssh", Prov: "oidc", CType: 1, Backdate: min}},
 		// templates that set the validity: inside the bounds, beyond the maximum, before 1970
 		{Renew: &RenewCase{Kind: "x509", Prov: "jwk", Backdate: min, TNB: TD{Kind: 1, T: T{Rel: true, Off: -hr}}, TNA: TD{Kind: 1, T: T{Rel: true, Off: 2 * hr}}}},
 		{Renew: &RenewCase{Kind: "x509", Prov: "jwk", Backdate: min, TNA: TD{Kind: 1, T: T{Rel: true, Off: 48 * hr}}}},
+		{Renew: &RenewCase{Kind: "x509", Prov: "jwk", Backdate: min, Hook: true, TNB: TD{Kind: 1, T: T{Rel: true, Off: -hr}}, TNA: TD{Kind: 1, T: T{Rel: true, Off: 2 * hr}}}},
+		{Renew: &RenewCase{Kind: "ssh", Prov: "jwk", CType: 1, Backdate: min, Hook: true, TVB: TD{Kind: 1, T: T{Rel: true, Off: 2 * hr}}}},
 		{Renew: &RenewCase{Kind: "ssh", Prov: "jwk", CType: 1, Backdate: min, TVA: TD{Kind: 1, T: T{Rel: true, Off: -hr}}, TVB: TD{Kind: 1, T: T{Rel: true, Off: 2 * hr}}}},
 		{Renew: &RenewCase{Kind: "ssh", Prov: "jwk", CType: 1, Backdate: min, TVB: TD{Kind: 1, T: T{Rel: true, Off: 48 * hr}}}},
 		{Renew: &RenewCase{Kind: "ssh", Prov: "jwk", CType: 1, Backdate: min, TVA: TD{Kind: 1, T: T{Sec: unixToInternal - 315619200}}}},
